@@ -39,14 +39,15 @@ def gate (ch th : Rat) : Rat := if th ≤ ch then 1 else 0
 
 /-! ### size and operation counts -/
 
-def paramsConv1d (s : S) : Rat := s.out_channels * (s.in_channels * k s 0 + bias s)
-def paramsConv2d (s : S) : Rat := s.out_channels * (s.in_channels * (k s 0 * k s 1) + bias s)
+/-- a (grouped) convolution connects every output channel to `in_channels / groups` inputs -/
+def paramsConv1d (s : S) : Rat := s.out_channels * (s.in_channels / s.groups * k s 0 + bias s)
+def paramsConv2d (s : S) : Rat := s.out_channels * (s.in_channels / s.groups * (k s 0 * k s 1) + bias s)
 def paramsConv1dDw (s : S) : Rat := s.in_channels * (k s 0 + bias s)
 def paramsConv2dDw (s : S) : Rat := s.in_channels * (k s 0 * k s 1 + bias s)
 def paramsLinear (s : S) : Rat := s.out_features * (s.in_features + bias s)
 
-def paramsNbConv1d (s : S) : Rat := s.out_channels * s.in_channels * k s 0
-def paramsNbConv2d (s : S) : Rat := s.out_channels * s.in_channels * (k s 0 * k s 1)
+def paramsNbConv1d (s : S) : Rat := s.out_channels * (s.in_channels / s.groups) * k s 0
+def paramsNbConv2d (s : S) : Rat := s.out_channels * (s.in_channels / s.groups) * (k s 0 * k s 1)
 def paramsNbConv1dDw (s : S) : Rat := s.in_channels * k s 0
 def paramsNbConv2dDw (s : S) : Rat := s.in_channels * (k s 0 * k s 1)
 def paramsNbLinear (s : S) : Rat := s.out_features * s.in_features
@@ -250,12 +251,13 @@ structure NonEmpty (s : S) : Prop where
   kernel_size : ∀ i, i < s.kernel_size.length → 1 ≤ k s i
   output_shape : ∀ i, i < s.output_shape.length → 1 ≤ o s i
 
-/-- shapes of a well-formed description of a layer of the given type: a `d`-dimensional convolution
-has `d` kernel sizes and an output of rank `d + 2`; a linear layer an output of rank 2
-(batch, features) -/
+/-- a well-formed description of a layer of the given type: a `d`-dimensional convolution has `d`
+kernel sizes, an output of rank `d + 2` and a non-zero number of groups (`torch.nn.ConvNd` requires
+`groups ≥ 1`; the size / operation counts divide by it); a linear layer an output of rank 2
+(batch, features).  Decidable. -/
 def WF (layer : String) (s : S) : Prop :=
-  if layer = "Conv1d" then s.kernel_size.length = 1 ∧ s.output_shape.length = 3
-  else if layer = "Conv2d" then s.kernel_size.length = 2 ∧ s.output_shape.length = 4
+  if layer = "Conv1d" then s.kernel_size.length = 1 ∧ s.output_shape.length = 3 ∧ s.groups ≠ 0
+  else if layer = "Conv2d" then s.kernel_size.length = 2 ∧ s.output_shape.length = 4 ∧ s.groups ≠ 0
   else s.output_shape.length = 2
 
 /-- `k × k` kernel -/
